@@ -97,6 +97,17 @@ func vWord(tag string) []byte {
 	return w
 }
 
+// vWordM: a word for memory / storage tests: fixed non-zero pattern with two symbolic bytes (the top
+// byte is a non-zero constant, so that big.Int normalisation does not fork on it)
+func vWordM(tag string, base byte) []byte {
+	w := make([]byte, 32)
+	for i := range w {
+		w[i] = base + byte(i)
+	}
+	w[5], w[20] = vNondetByte(tag), vNondetByte(tag)
+	return w
+}
+
 // ret32: store the top of stack to memory and return it
 var vRet32 = []byte{0x60, 0x00, 0x52, 0x60, 0x20, 0x60, 0x00, 0xf3}
 
@@ -173,10 +184,147 @@ func VerifHarness_C10_every_opcode() {
 			code = append(code, byte(0xA0+i))
 		}
 	}
-	code = append(code, 0x00)
+	// epilogue: the value the opcode left on top of the stack goes to mem[0x80:0xa0], and the
+	// first 0xa0 bytes of memory are returned: the opcode's result AND its effect on memory (the
+	// operands are small, so memory opcodes touch low addresses) are compared, not only its outcome.
+	// An opcode that leaves the stack empty makes the epilogue underflow in both interpreters alike.
+	if op == 0x5a {
+		// GAS: the in-tree interpreter charges by a different schedule (documented deviation of the
+		// gas regime, outside the claim): only the outcome is compared, not the value
+		code = append(code, 0x00)
+	} else {
+		code = append(code, 0x60, 0x80, 0x52, 0x60, 0xa0, 0x60, 0x00, 0xf3)
+	}
 	ri, ei, rr, er := vRun(code, []byte{1, 2, 3, 4})
 	vReach("executed")
 	vAgree(ri, ei, rr, er, "E2")
+}
+
+// E4: memory, return data and a precompile. The caller stores a symbolic word, CALLs / STATICCALLs
+// the identity precompile (address 4) with input and output windows that may overlap, overwrites
+// the argument region, copies the return data elsewhere and returns its memory: the return data
+// must be a COPY of the arguments as of the call, exactly as in the reference.
+func VerifHarness_C10_precompile_memory() {
+	op := byte(0xf1)
+	if vNondetBool("staticcall") {
+		op = 0xfa
+	}
+	x, y := vWordM("x", 0x10), vWordM("y", 0x90)
+	inOff := byte(vNondetLen("inoff", 0, 1) * 8)       // 0, 8
+	inSize := byte(vNondetLen("insize", 0, 2) * 16)    // 0, 16, 32
+	outOff := byte(vNondetLen("outoff", 0, 2) * 8)     // 0, 8, 16
+	outSize := byte(vNondetLen("outsize", 0, 2) * 16) // 0, 16, 32
+	var code []byte
+	code = append(code, 0x7f)
+	code = append(code, x...)
+	code = append(code, 0x60, 0x00, 0x52) // mem[0:32] = x
+	code = append(code, 0x7f)
+	code = append(code, bytes.Repeat([]byte{0xEE}, 32)...)
+	code = append(code, 0x60, 0x20, 0x52) // mem[32:64] = marker
+	code = append(code, 0x60, outSize, 0x60, outOff, 0x60, inSize, 0x60, inOff)
+	if op == 0xf1 {
+		code = append(code, 0x60, 0x00) // value
+	}
+	code = append(code, 0x60, 0x04)             // identity precompile
+	code = append(code, 0x62, 0x01, 0x86, 0xa0) // gas
+	code = append(code, op)
+	code = append(code, 0x60, 0x60, 0x52) // success flag -> mem[0x60:0x80]
+	if vNondetBool("overwrite-args") {
+		code = append(code, 0x7f)
+		code = append(code, y...)
+		code = append(code, 0x60, inOff, 0x52) // mem[inOff:inOff+32] = y (after the call)
+	}
+	code = append(code, 0x3d, 0x60, 0x00, 0x60, 0x80, 0x3e) // RETURNDATACOPY(0x80, 0, RETURNDATASIZE)
+	code = append(code, 0x3d, 0x60, 0xc0, 0x52)             // RETURNDATASIZE -> mem[0xc0:0xe0]
+	code = append(code, 0x60, 0xe0, 0x60, 0x00, 0xf3)       // return mem[0:0xe0]
+	ri, ei, rr, er := vRun(code, nil)
+	vReach("executed")
+	vAgree(ri, ei, rr, er, "E4")
+	vAssert(ei == nil && len(ri) == 0xe0, "E4-in-tree-executes")
+}
+
+// E5: control flow. JUMP / JUMPI with a symbolic condition to a destination that is a JUMPDEST,
+// a 0x5b byte inside PUSH data (not a valid destination), a non-JUMPDEST opcode, or out of range.
+func VerifHarness_C10_jumps() {
+	cond := vWord("cond")
+	jumpi := vNondetBool("jumpi")
+	// layout: PUSH32 cond | (PUSH1 dest JUMPI) or (POP PUSH1 dest JUMP) | PUSH1 0x11 ret32 |
+	//         P: JUMPDEST PUSH1 0x22 ret32 | PUSH1 0x5b (the data byte sits at P+12) | STOP
+	P := 33 + 3 + 10
+	if !jumpi {
+		P++
+	}
+	dests := []int{P, P + 12, P + 1, 200, 0}
+	dest := byte(dests[vNondetLen("dest", 0, len(dests)-1)])
+	code := []byte{0x7f}
+	code = append(code, cond...)
+	if jumpi {
+		code = append(code, 0x60, dest, 0x57)
+	} else {
+		code = append(code, 0x50, 0x60, dest, 0x56)
+	}
+	code = append(code, 0x60, 0x11)
+	code = append(code, vRet32...)
+	vAssert(len(code) == P, "E5-layout")
+	code = append(code, 0x5b, 0x60, 0x22)
+	code = append(code, vRet32...)
+	code = append(code, 0x60, 0x5b, 0x00)
+	ri, ei, rr, er := vRun(code, nil)
+	vReach("executed")
+	vAgree(ri, ei, rr, er, "E5")
+}
+
+// E6: storage. SSTORE / SLOAD with symbolic keys and values: write k1, write k2 (possibly the same
+// slot, possibly zero), read k1 back.
+func VerifHarness_C10_storage() {
+	// slot keys are concrete (the state trie hashes them with the real Keccak), values symbolic
+	keys := [][]byte{make([]byte, 32), append(make([]byte, 31), 1), bytes.Repeat([]byte{0xff}, 32)}
+	k1 := keys[vNondetLen("k1", 0, len(keys)-1)]
+	k2 := keys[vNondetLen("k2", 0, len(keys)-1)]
+	v1, v2 := vWordM("v1", 0x10), vWordM("v2", 0x90)
+	if vNondetBool("v2-zero") {
+		v2 = make([]byte, 32) // clearing a slot
+	}
+	var code []byte
+	push := func(w []byte) { code = append(append(code, 0x7f), w...) }
+	push(v1)
+	push(k1)
+	code = append(code, 0x55)
+	push(v2)
+	push(k2)
+	code = append(code, 0x55)
+	push(k1)
+	code = append(code, 0x54)
+	code = append(code, vRet32...)
+	ri, ei, rr, er := vRun(code, nil)
+	vReach("executed")
+	vAgree(ri, ei, rr, er, "E6")
+	vAssert(ei == nil && len(ri) == 32, "E6-in-tree-executes")
+}
+
+// E7: call data and code copies with symbolic small offsets and lengths around the boundaries
+// (reads beyond the end are zero-filled), CALLDATALOAD at a symbolic offset.
+func VerifHarness_C10_data_copies() {
+	input := vNondetBytes("input", 5)
+	op := []byte{0x37, 0x39, 0x35}[vNondetLen("op", 0, 2)] // CALLDATACOPY, CODECOPY, CALLDATALOAD
+	off := []byte{0, 1, 4, 5, 6, 31, 40}[vNondetLen("off", 0, 6)]
+	var code []byte
+	code = append(code, 0x7f)
+	code = append(code, bytes.Repeat([]byte{0xEE}, 32)...)
+	code = append(code, 0x60, 0x00, 0x52) // marker
+	if op == 0x35 {
+		code = append(code, 0x60, off, 0x35, 0x60, 0x20, 0x52) // mem[32:64] = CALLDATALOAD(off)
+	} else {
+		ln := byte(vNondetLen("len", 0, 3) * 3) // 0, 3, 6, 9
+		dst := byte(vNondetLen("dst", 0, 1) * 30)
+		code = append(code, 0x60, ln, 0x60, off, 0x60, dst, op)
+	}
+	code = append(code, 0x59, 0x60, 0x40, 0x52)       // MSIZE -> mem[64:96]
+	code = append(code, 0x60, 0x60, 0x60, 0x00, 0xf3) // return mem[0:96]
+	ri, ei, rr, er := vRun(code, input)
+	vReach("executed")
+	vAgree(ri, ei, rr, er, "E7")
+	vAssert(ei == nil && len(ri) == 0x60, "E7-in-tree-executes")
 }
 
 
